@@ -201,6 +201,22 @@ def run_schedule(args):
                     skipped += 1
                     continue
                 steps.append(dict(ev=le, obs=obs_json(w.observe(), c)))
+        elif mode == 'interfere':
+            # random schedule in which, now and then, another scheduler process captures (and invokes) an eligible job right before
+            # a capture statement of an observed instance
+            for _ in range(evs):
+                en = [e for e in enabled_steps(w, c) if e['a'] != 'Crash']
+                if not en:
+                    break
+                wts = [0.3 if (e['a'] == 'Schedule' and not e['c']) else 2.0 if e['a'] == 'Schedule' else 1.5 if e['a'] == 'Tick' else 1.0 for e in en]
+                e = rnd.choices(en, wts)[0]
+                if e['a'] in ('MemCapture', 'Poll') and rnd.random() < 0.6:
+                    w.armed.add(e['i'])
+                le = apply_step(w, e)
+                w.armed.discard(e.get('i'))
+                if le is None:
+                    continue
+                steps.append(dict(ev=le, obs=obs_json(w.observe(), c)))
         else:
             for _ in range(evs):
                 en = enabled_steps(w, c)
@@ -292,6 +308,8 @@ def run(tier):
             jobs_.append((nm, c, b, 'replay', 0))
         for k in range(nrand):
             jobs_.append((nm, c, 45, 'random', common.seed() * 100003 + k))
+        for k in range(nrand):
+            jobs_.append((nm, dict(c, cap=2), 60, 'interfere', common.seed() * 100043 + k))
     legc = dict(CONFIGS['q22'], kind='legacy')
     for b in simulate(d, 'leg22', legc, nsim, 40, common.seed() + 13, module='LegacyScheduler'):
         jobs_.append(('leg22', legc, b, 'replay', 0))
@@ -328,7 +346,8 @@ def run(tier):
         for m in re.finditer(r'<<"viol", (\d+), (\d+), "(\w+)">>', ro.out):
             viols.setdefault(int(m.group(1)), []).append((int(m.group(2)), m.group(3)))
         kfs = set(int(m.group(1)) for m in re.finditer(r'<<"kf", (\d+), (\d+), "(\w+)">>', ro.out))
-        rs = validate(d, cname, c, ts, strict=True, tag='strict')
+        # (executions with statement-level interference are judged by the property formulas only)
+        rs = validate(d, cname, c, [t_ if t_['mode'] != 'interfere' else dict(t_, steps=t_['steps'][:1]) for t_ in ts], strict=True, tag='strict')
         states += rs.distinct
         trans += rs.generated
         acc = set(int(m.group(1)) for m in re.finditer(r'<<"accepted", (\d+)>>', rs.out))
